@@ -21,6 +21,7 @@ import (
 	"github.com/cosmos/cosmos-sdk/baseapp"
 	"github.com/cosmos/cosmos-sdk/client"
 	cosmosed25519 "github.com/cosmos/cosmos-sdk/crypto/keys/ed25519"
+	storetypes "github.com/cosmos/cosmos-sdk/store/types"
 	simtestutil "github.com/cosmos/cosmos-sdk/testutil/sims"
 	sdk "github.com/cosmos/cosmos-sdk/types"
 	"github.com/cosmos/cosmos-sdk/types/tx/signing"
@@ -90,6 +91,7 @@ type nodeWorld struct {
 	puppet      common.Address
 	nextProp    uint64
 	bigGas      bool
+	codeless    []common.Address
 }
 
 func (w *nodeWorld) acc(k int) sdk.AccAddress {
@@ -372,6 +374,12 @@ func (w *nodeWorld) buildTxs(a *app.Haqq, ctx sdk.Context, tok string) [][]byte 
 		return [][]byte{w.cosmosTx(a, ctx, ki(1), stakingtypes.NewMsgUndelegate(w.acc(ki(1)), w.valAddr, coin(f[2])[0]))}
 	case "dao":
 		return [][]byte{w.cosmosTx(a, ctx, ki(1), ucdaotypes.NewMsgFund(coin(f[2]), w.acc(ki(1))))}
+	case "codeless":
+		// a creation transaction whose constructor stores two slots and returns no runtime code: an account with the
+		// empty code hash and live storage
+		init := common.FromHex("0x602a600055600760015560006000f3")
+		w.codeless = append(w.codeless, crypto.CreateAddress(w.eth(ki(1)), a.EvmKeeper.GetNonce(ctx, w.eth(ki(1)))))
+		return [][]byte{w.ethTx(a, ctx, ki(1), nil, nil, init, 200_000, 0)}
 	case "vest":
 		// funder k converts key j into a vesting account: lockup in three future steps, vesting already complete
 		amt := mustBig(f[3])
@@ -472,7 +480,7 @@ func nodeGen(r *rand.Rand, tier string, prop string) []Case {
 		c := Case{fmt.Sprintf("world # seed=%d", r.Intn(1_000_000))}
 		c = append(c, "blk # dt=6 txs=deploy.0|eth.1.5")
 		c = append(c, "blk # dt=6 txs=fundpup.0.1000000000000000|approve.1|approve.2|mdeleg.3.100000000000000000|mdeleg.1.100000000000000000|mdeleg.2.100000000000000000")
-		c = append(c, "blk # dt=6 txs=vest.4.5.6000000000000000000000")
+		c = append(c, "blk # dt=6 txs=vest.4.5.6000000000000000000000|codeless.2")
 		var liqTo []int
 		swapAt := 2 + r.Intn(blocks-6)
 		swapped := "bech32" // the extension that is inactive
@@ -843,6 +851,32 @@ func c19Exec(c Case) (outs []string, fails []Failure, tags []string) {
 				}
 			}
 		}
+		// the raw key/value content of the Haqq modules' stores on both applications
+		for _, name := range []string{"evm", "erc20", "liquidvesting", "ucdao", "coinomics", "epochs", "feemarket", "bank", "acc", "authz"} {
+			k1, k2 := run.a.GetKey(name), b.GetKey(name)
+			if k1 == nil || k2 == nil {
+				tags = append(tags, "store-missing:"+name)
+				continue
+			}
+			tags = append(tags, "store-compared:"+name)
+			h1 := testutil.NewHeader(run.a.LastBlockHeight(), last, nodeChainID, run.w.proposer, nil, nil)
+			m1, m2 := nodeStoreMap(run.a.BaseApp.NewContext(true, h1), k1), nodeStoreMap(b.BaseApp.NewContext(true, h1), k2)
+			n := 0
+			for k, v := range m1 {
+				if v2, ok := m2[k]; !ok || v2 != v {
+					if n < 3 {
+						diffs = append(diffs, fmt.Sprintf("after block %d, store %s key %x: %x on the exporting chain, %x after re-import", len(run.blocks)+1, name, k, trunc([]byte(v)), trunc([]byte(v2))))
+					}
+					n++
+				}
+			}
+			for k, v2 := range m2 {
+				if _, ok := m1[k]; !ok && n < 3 {
+					diffs = append(diffs, fmt.Sprintf("after block %d, store %s key %x exists only after re-import (%x)", len(run.blocks)+1, name, k, trunc([]byte(v2))))
+					n++
+				}
+			}
+		}
 		var g1, g2 map[string]json.RawMessage
 		_ = json.Unmarshal(exp1.AppState, &g1)
 		_ = json.Unmarshal(exp2.AppState, &g2)
@@ -870,6 +904,16 @@ func c19Exec(c Case) (outs []string, fails []Failure, tags []string) {
 		fails = append(fails, Failure{Signature: sig, What: strings.Join(diffs, "\n"), Case: c})
 	}
 	return
+}
+
+func nodeStoreMap(ctx sdk.Context, key storetypes.StoreKey) map[string]string {
+	m := map[string]string{}
+	it := ctx.KVStore(key).Iterator(nil, nil)
+	defer it.Close()
+	for ; it.Valid(); it.Next() {
+		m[string(it.Key())] = string(it.Value())
+	}
+	return m
 }
 
 // nodeQueryDigest reads the state of Haqq's modules through their keepers (what the gRPC queries serve).
@@ -900,6 +944,11 @@ func nodeQueryDigest(w *nodeWorld, a *app.Haqq, t time.Time) []string {
 	}
 	for k := 0; k < 3; k++ {
 		add(fmt.Sprintf("puppet.slot%d", k), a.EvmKeeper.GetState(ctx, w.puppet, common.BigToHash(big.NewInt(int64(k)))))
+	}
+	for i, ad := range w.codeless {
+		for k := 0; k < 2; k++ {
+			add(fmt.Sprintf("codeless%d.slot%d", i, k), a.EvmKeeper.GetState(ctx, ad, common.BigToHash(big.NewInt(int64(k)))))
+		}
 	}
 	add("evm.params", a.EvmKeeper.GetParams(ctx))
 	add("feemarket.params", a.FeeMarketKeeper.GetParams(ctx))
